@@ -31,12 +31,13 @@ theorem getAck_of_not_expired (s : MSt) (now : Int) (h : expired s now = false) 
 theorem not_expired_of_none (s : MSt) (now : Int) (h : s.ack = .none) : expired s now = false := by
   simp [expired, h]
 
-theorem expired_mk (b : St) (a : Ack) (e : Int) (cm : List Cmt) (sp dt : Bool) (now : Int) :
-    expired ⟨b, a, e, cm, sp, dt⟩ now = (a != .none && e != 0 && decide (e < now)) := rfl
+theorem expired_mk (b : St) (a : Ack) (e : Int) (cm : List Cmt) (sp sr dt pa : Bool) (now : Int) :
+    expired ⟨b, a, e, cm, sp, sr, dt, pa⟩ now = (a != .none && e != 0 && decide (e < now)) := rfl
 
-theorem getAck_mk (b : St) (a : Ack) (e : Int) (cm : List Cmt) (sp dt : Bool) (now : Int) :
-    getAck ⟨b, a, e, cm, sp, dt⟩ now =
-      if (a != .none && e != 0 && decide (e < now)) then (⟨b, .none, 0, cm, sp, dt⟩, 1) else (⟨b, a, e, cm, sp, dt⟩, 0) := by
+theorem getAck_mk (b : St) (a : Ack) (e : Int) (cm : List Cmt) (sp sr dt pa : Bool) (now : Int) :
+    getAck ⟨b, a, e, cm, sp, sr, dt, pa⟩ now =
+      if (a != .none && e != 0 && decide (e < now)) then (⟨b, .none, 0, cm, sp, sr, dt, pa⟩, 1)
+      else (⟨b, a, e, cm, sp, sr, dt, pa⟩, 0) := by
   cases h : (a != .none && e != 0 && decide (e < now))
   · rw [getAck_of_not_expired _ _ (by rw [expired_mk]; exact h)]; simp
   · rw [getAck_of_expired _ _ (by rw [expired_mk]; exact h)]; simp
@@ -60,15 +61,16 @@ theorem resultAck_eq (c : Cfg) (s : MSt) (new : SState) (now : Int) :
 theorem step_ack (c : Cfg) (s : MSt) (via : Via) (sticky notify persistent : Bool) (expiry now : Int) :
     step c s (.ack via sticky notify persistent expiry now) =
       if preRefuse c s via expiry now || ackNow s now != .none then
-        ((getAck s now).1, { acc := false, nClr := (getAck s now).2 })
+        ((getAck s now).1, { acc := false, nClr := (getAck s now).2,
+                             raw := if preRefuse c s via expiry now then s.ack else ackNow s now })
       else
         let e := storedExpiry via expiry
         let gone := e != 0 && decide (e < now)
         (⟨s.base, if gone then .none else ackTypeOf sticky, if gone then 0 else e,
           if addsComment via then insertCmt ⟨now, persistent, commentExpire via expiry⟩ s.comments else s.comments,
-          s.suppPending, s.inDowntime⟩,
+          s.suppProblem, s.suppRecovery, s.inDowntime, s.paused⟩,
          { acc := true, nSet := 1, nClr := (if expired s now then 1 else 0) + (if gone then 1 else 0),
-           nAckN := if notify then 1 else 0 }) := by
+           nAckN := if notify && !s.paused then 1 else 0, raw := ackTypeOf sticky }) := by
   cases hp : preRefuse c s via expiry now
   · cases he : expired s now
     · cases ha : s.ack
@@ -83,13 +85,13 @@ theorem step_ack (c : Cfg) (s : MSt) (via : Via) (sticky notify persistent : Boo
 /-- Closed form of a remove-acknowledgement followed by the look. -/
 theorem step_remove (c : Cfg) (s : MSt) (via : RVia) (now : Int) :
     step c s (.remove via now) =
-      (⟨s.base, .none, 0, if via != .cluster then s.comments.filter (·.persistent) else s.comments, s.suppPending,
-         s.inDowntime⟩,
-       { acc := true, nClr := s.ack.ind }) := by
+      (⟨s.base, .none, 0, if via != .cluster then s.comments.filter (·.persistent) else s.comments, s.suppProblem,
+         s.suppRecovery, s.inDowntime, s.paused⟩,
+       { acc := true, nClr := s.ack.ind, raw := .none }) := by
   cases ha : s.ack <;> simp [step, opStep, removeStep, clearAck, getAck_mk, Op.now, ha, Ack.ind]
 
 theorem step_advance (c : Cfg) (s : MSt) (now : Int) :
-    step c s (.advance now) = ((getAck s now).1, { acc := true, nClr := (getAck s now).2 }) := by
+    step c s (.advance now) = ((getAck s now).1, { acc := true, nClr := (getAck s now).2, raw := s.ack }) := by
   simp [step, opStep, Op.now]
 
 /-- The comments the comment-expiry timer leaves at `now`, given whether it ran. -/
@@ -98,17 +100,40 @@ def pumped (s : MSt) (now : Int) (fired : Bool) : MSt :=
 
 theorem step_pump (c : Cfg) (s : MSt) (now : Int) (fired : Bool) :
     step c s (.pump now fired) =
-      ((getAck (pumped s now fired) now).1, { acc := true, nClr := (getAck (pumped s now fired) now).2 }) := by
+      ((getAck (pumped s now fired) now).1,
+       { acc := true, nClr := (getAck (pumped s now fired) now).2, raw := s.ack }) := by
   simp [step, opStep, Op.now, pumped]
 
 theorem step_downtime (c : Cfg) (s : MSt) (on : Bool) (now : Int) :
     step c s (.downtime on now) =
-      ((getAck { s with inDowntime := on } now).1, { acc := true, nClr := (getAck { s with inDowntime := on } now).2 }) := by
+      ((getAck { s with inDowntime := on } now).1,
+       { acc := true, nClr := (getAck { s with inDowntime := on } now).2, raw := s.ack }) := by
   simp [step, opStep, Op.now]
+
+theorem step_pause (c : Cfg) (s : MSt) (on : Bool) (now : Int) :
+    step c s (.pause on now) =
+      ((getAck { s with paused := on } now).1,
+       { acc := true, nClr := (getAck { s with paused := on } now).2, raw := s.ack }) := by
+  simp [step, opStep, Op.now]
+
+theorem getAck_idem (s : MSt) (now : Int) : getAck (getAck s now).1 now = ((getAck s now).1, 0) := by
+  cases he : expired s now
+  · simp [getAck_of_not_expired, he]
+  · rw [getAck_of_expired _ _ he]
+    exact getAck_of_not_expired _ _ (not_expired_of_none _ _ rfl)
+
+theorem step_remind (c : Cfg) (s : MSt) (now : Int) :
+    step c s (.remind now) =
+      ((getAck s now).1,
+       { acc := true, nClr := (getAck s now).2, raw := if remindable c s then (getAck s now).1.ack else s.ack,
+         nRem := if remindable c s && (getAck s now).1.ack == .none then 1 else 0 }) := by
+  cases hr : remindable c s
+  · simp [step, opStep, remindStep, hr, Op.now]
+  · simp [step, opStep, remindStep, hr, Op.now, getAck_idem]
 
 theorem step_result_stale (c : Cfg) (s : MSt) (new : SState) (es ee now : Int)
     (h : stale s.base ⟨new, es, now⟩ = true) :
-    step c s (.result new es ee now) = ((getAck s now).1, { acc := false, nClr := (getAck s now).2 }) := by
+    step c s (.result new es ee now) = ((getAck s now).1, { acc := false, nClr := (getAck s now).2, raw := s.ack }) := by
   simp [step, opStep, h, Op.now]
 
 /-- The acknowledgement after an accepted result, by the property's rule. -/
@@ -120,13 +145,15 @@ theorem step_result (c : Cfg) (s : MSt) (new : SState) (es ee now : Int)
     step c s (.result new es ee now) =
       let a0 := ackNow s now
       let a1 := ackAfterResult c s new now
-      let send := sendNotification c s.base new
-      let stash := send && (a1 != .none || s.inDowntime || s.suppPending)
+      let due := sendNotification c s.base new && !s.paused
+      let recovery := isOK c.kind new && !isOK c.kind s.base.state
+      let stash := due && (a1 != .none || s.inDowntime || s.suppProblem || s.suppRecovery)
       (⟨(stepCore c s.base ⟨new, es, now⟩).1, a1, if s.ack != .none && a1 == .none then 0 else s.expiry,
-        if a1 == .none then s.comments.filter (keepsComment ee) else s.comments, s.suppPending || stash,
-        s.inDowntime⟩,
+        if a1 == .none then s.comments.filter (keepsComment ee) else s.comments,
+        s.suppProblem || (stash && !recovery), s.suppRecovery || (stash && recovery), s.inDowntime, s.paused⟩,
        { acc := true, nClr := (if expired s now then 1 else 0) + (if a0 != .none && a1 == .none then 1 else 0),
-         nProbN := if send && !stash && !(isOK c.kind new && !isOK c.kind s.base.state) then 1 else 0 }) := by
+         nProbN := if due && !stash && !recovery then 1 else 0,
+         nRecN := if due && !stash && recovery then 1 else 0, raw := a1 }) := by
   cases ha : s.ack
   · have he : expired s now = false := not_expired_of_none s now ha
     cases hsc : stateChange c.kind s.base.state new <;> cases hok : isOK c.kind new <;>
@@ -148,27 +175,32 @@ theorem step_result (c : Cfg) (s : MSt) (new : SState) (es ee now : Int)
 
 def Rel (sp : SpecSt) (s : MSt) : Prop :=
   sp.state = s.base.state ∧ sp.ack = s.ack ∧ (s.ack ≠ .none → sp.expiry = s.expiry) ∧ sp.comments = s.comments ∧
-  sp.inDt = s.inDowntime
+  sp.inDt = s.inDowntime ∧ sp.stype = s.base.stype ∧ sp.attempt = s.base.attempt ∧ sp.suppP = s.suppProblem ∧
+  sp.suppR = s.suppRecovery ∧ sp.paused = s.paused
 
-theorem ranOut_eq (sp : SpecSt) (s : MSt) (now : Int) (h : Rel sp s) : ranOut sp now = expired s now := by
-  obtain ⟨_, h2, h3, _, _⟩ := h
+/-- The part of the relation a look depends on. -/
+def RelA (sp : SpecSt) (s : MSt) : Prop :=
+  sp.ack = s.ack ∧ (s.ack ≠ .none → sp.expiry = s.expiry) ∧ sp.suppP = s.suppProblem ∧ sp.suppR = s.suppRecovery
+
+theorem Rel.toA {sp : SpecSt} {s : MSt} (h : Rel sp s) : RelA sp s :=
+  ⟨h.2.1, h.2.2.1, h.2.2.2.2.2.2.2.1, h.2.2.2.2.2.2.2.2.1⟩
+
+theorem ranOut_eqA (sp : SpecSt) (s : MSt) (now : Int) (h : RelA sp s) : ranOut sp now = expired s now := by
+  obtain ⟨h2, h3, _, _⟩ := h
   unfold ranOut expired
   rw [h2]
   by_cases ha : s.ack = .none
   · simp [ha]
   · rw [h3 ha]
 
-theorem ackAt_eq (sp : SpecSt) (s : MSt) (now : Int) (h : Rel sp s) : ackAt sp now = ackNow s now := by
-  simp [ackAt, ackNow, ranOut_eq sp s now h, h.2.1]
+theorem ranOut_eq (sp : SpecSt) (s : MSt) (now : Int) (h : Rel sp s) : ranOut sp now = expired s now :=
+  ranOut_eqA sp s now h.toA
 
-theorem rel_getAck (sp : SpecSt) (s : MSt) (now : Int) (h : Rel sp s) :
-    Rel { state := s.base.state, ack := (getAck s now).1.ack, comments := s.comments, inDt := sp.inDt,
-          expiry := if (getAck s now).1.ack == .none then 0 else sp.expiry } (getAck s now).1 := by
-  obtain ⟨h1, h2, h3, h4, h5⟩ := h
-  cases he : expired s now
-  · simp [getAck_of_not_expired, he, Rel, h5]
-    intro ha; simp [ha, h3 ha]
-  · simp [getAck_of_expired, he, Rel, h5]
+theorem ackAt_eqA (sp : SpecSt) (s : MSt) (now : Int) (h : RelA sp s) : ackAt sp now = ackNow s now := by
+  simp [ackAt, ackNow, ranOut_eqA sp s now h, h.1]
+
+theorem ackAt_eq (sp : SpecSt) (s : MSt) (now : Int) (h : Rel sp s) : ackAt sp now = ackNow s now :=
+  ackAt_eqA sp s now h.toA
 
 theorem getAck_ack (s : MSt) (now : Int) : (getAck s now).1.ack = ackNow s now := by
   cases he : expired s now <;> simp [getAck_of_not_expired, getAck_of_expired, he, ackNow]
@@ -178,70 +210,181 @@ theorem getAck_cnt (s : MSt) (now : Int) : (getAck s now).2 = if expired s now t
 
 theorem getAck_rest (s : MSt) (now : Int) :
     (getAck s now).1.base = s.base ∧ (getAck s now).1.comments = s.comments ∧
-    (getAck s now).1.inDowntime = s.inDowntime := by
+    (getAck s now).1.inDowntime = s.inDowntime ∧ (getAck s now).1.suppProblem = s.suppProblem ∧
+    (getAck s now).1.suppRecovery = s.suppRecovery ∧ (getAck s now).1.paused = s.paused := by
   cases he : expired s now <;> simp [getAck_of_not_expired, getAck_of_expired, he]
 
+theorem getAck_expiry (s : MSt) (now : Int) :
+    (getAck s now).1.expiry = if expired s now then 0 else s.expiry := by
+  cases he : expired s now <;> simp [getAck_of_not_expired, getAck_of_expired, he]
+
+theorem first_append (l₁ l₂ : List (Bool × Clause)) (h₁ : first l₁ = none) (h₂ : first l₂ = none) :
+    first (l₁ ++ l₂) = none := by
+  induction l₁ with
+  | nil => simpa using h₂
+  | cons x xs ih =>
+    obtain ⟨b, cl⟩ := x
+    cases b
+    · simp only [first, Bool.false_eq_true, if_false, List.cons_append] at h₁ ⊢
+      exact ih h₁
+    · simp [first] at h₁
+
+/-- The observation of a look: the state `s'` the operation left, looked at at `now`. -/
+def lookObs (c : Cfg) (s' : MSt) (now : Int) (acc : Bool) (raw : Ack) (rem : Nat := 0) : Obs :=
+  obsOf c ((getAck s' now).1, { acc := acc, nClr := (getAck s' now).2, raw := raw, nRem := rem })
+
 /-- The clauses of a look at which nothing but the lazy expiry can happen (advance, dropped result, refused
-    acknowledge, pump, downtime), for a state `s'` that the bookkeeping `sp'` describes. -/
-theorem look_clauses (c : Cfg) (sp' : SpecSt) (s' : MSt) (now : Int) (acc : Bool) (h : Rel sp' s') (cl : Clause) :
-    first (lookChecks sp' now sp'.inDt cl (obsOf c ((getAck s' now).1, { acc := acc, nClr := (getAck s' now).2 }))) = none := by
-  have hr := ranOut_eq sp' s' now h
-  have ha := ackAt_eq sp' s' now h
-  have hd : sp'.inDt = s'.inDowntime := h.2.2.2.2
-  simp [lookChecks, obsOf, first, common, ha, hr, hd, getAck_ack, getAck_cnt, getAck_rest, handledOf]
-  cases he : expired s' now <;> simp [ackNow, he]
+    acknowledge, pump, downtime, pause), for a state `s'` that the bookkeeping `sp` describes as far as a look goes. -/
+theorem look_clauses (c : Cfg) (sp : SpecSt) (s' : MSt) (op : Op) (acc : Bool) (raw : Ack) (inDt : Bool) (cl : Clause)
+    (h : RelA sp s') (hd : inDt = s'.inDowntime) (hraw : raw = s'.ack ∨ raw = ackNow s' op.now)
+    (rem : Nat := 0) (hrem : rem = 0 ∨ ackNow s' op.now = .none := by exact Or.inl rfl)
+    (hexp : expiryAfter sp op (lookObs c s' op.now acc raw rem) = if ackNow s' op.now == .none then 0 else sp.expiry) :
+    first (lookChecks sp op inDt cl (lookObs c s' op.now acc raw rem)) = none := by
+  have hr := ranOut_eqA sp s' op.now h
+  have ha := ackAt_eqA sp s' op.now h
+  obtain ⟨h2, h3, h4, h5⟩ := h
+  simp only [lookChecks, common, quiet, hexp]
+  simp only [lookObs, obsOf, getAck_ack, getAck_cnt, getAck_rest, getAck_expiry, handledOf, sevAckOf, problemOf, ha, hr,
+    hd, h2, h4, h5]
+  cases he : expired s' op.now
+  · have hn : ackNow s' op.now = s'.ack := by simp [ackNow, he]
+    by_cases hk : s'.ack = .none
+    · rcases hraw with hraw | hraw <;> simp [first, hn, hk, hraw]
+    · have hrem0 : rem = 0 := by
+        rcases hrem with hrem | hrem
+        · exact hrem
+        · exact absurd (hn ▸ hrem) hk
+      rcases hraw with hraw | hraw <;> simp [first, hn, hk, hraw, h3 hk, hrem0]
+  · have hn : ackNow s' op.now = .none := by simp [ackNow, he]
+    rcases hraw with hraw | hraw <;> simp [first, hn, hraw]
+
+/-- The relation after a look. -/
+theorem rel_after_look (c : Cfg) (sp : SpecSt) (s' : MSt) (now : Int) (acc : Bool) (raw : Ack) (inDt paused : Bool)
+    (e : Int) (rem : Nat) (h2 : sp.ack = s'.ack) (h3 : s'.ack ≠ .none → sp.expiry = s'.expiry) (hd : inDt = s'.inDowntime)
+    (hp : paused = s'.paused) (he : e = if ackNow s' now == .none then 0 else sp.expiry) :
+    Rel { state := (lookObs c s' now acc raw rem).state, ack := (lookObs c s' now acc raw rem).ack,
+          comments := (lookObs c s' now acc raw rem).comments, inDt := inDt, expiry := e,
+          stype := (lookObs c s' now acc raw rem).stype, attempt := (lookObs c s' now acc raw rem).attempt,
+          suppP := (lookObs c s' now acc raw rem).suppP, suppR := (lookObs c s' now acc raw rem).suppR, paused := paused }
+      (getAck s' now).1 := by
+  subst he
+  cases hx : expired s' now
+  · simp [lookObs, obsOf, Rel, getAck_of_not_expired, hx, hd, hp, ackNow]
+    intro hk; simp [hk, h3 hk]
+  · simp [lookObs, obsOf, Rel, getAck_of_expired, hx, hd, hp, ackNow]
 
 theorem spec_step_advance (c : Cfg) (sp : SpecSt) (s : MSt) (now : Int) (h : Rel sp s) :
     specStep c sp (.advance now) (obsOf c (step c s (.advance now))) = none ∧
     Rel (specNext sp (.advance now) (obsOf c (step c s (.advance now)))) (step c s (.advance now)).1 := by
-  have hrel := rel_getAck sp s now h
   rw [step_advance]
+  have hexp : expiryAfter sp (.advance now) (lookObs c s now true s.ack) = if ackNow s now == .none then 0 else sp.expiry := by
+    simp [expiryAfter, lookObs, obsOf, getAck_ack]
   refine ⟨?_, ?_⟩
-  · exact look_clauses c sp s now true h .ackFrame
-  · simpa [specNext, obsOf, getAck_rest] using hrel
+  · refine first_append _ _ (look_clauses c sp s (.advance now) true s.ack sp.inDt .ackFrame h.toA h.2.2.2.2.1 (Or.inl rfl) (hexp := hexp)) ?_
+    simp [first, obsOf, getAck_rest, h.2.2.2.1]
+  · have := rel_after_look c sp s now true s.ack sp.inDt sp.paused _ 0 h.2.1 h.2.2.1 h.2.2.2.2.1 h.2.2.2.2.2.2.2.2.2 hexp
+    simpa [specNext, lookObs] using this
 
 theorem spec_step_stale (c : Cfg) (sp : SpecSt) (s : MSt) (new : SState) (es ee now : Int) (h : Rel sp s)
     (hst : stale s.base ⟨new, es, now⟩ = true) :
     specStep c sp (.result new es ee now) (obsOf c (step c s (.result new es ee now))) = none ∧
     Rel (specNext sp (.result new es ee now) (obsOf c (step c s (.result new es ee now)))) (step c s (.result new es ee now)).1 := by
-  have hrel := rel_getAck sp s now h
   rw [step_result_stale c s new es ee now hst]
+  have hexp : expiryAfter sp (.result new es ee now) (lookObs c s now false s.ack) =
+      if ackNow s now == .none then 0 else sp.expiry := by
+    simp [expiryAfter, lookObs, obsOf, getAck_ack]
   refine ⟨?_, ?_⟩
-  · exact look_clauses c sp s now false h .unchangedKeeps
-  · simpa [specNext, obsOf, getAck_rest] using hrel
+  · have hacc : (obsOf c ((getAck s now).1, ({ acc := false, nClr := (getAck s now).2, raw := s.ack } : Out))).acc = false := rfl
+    simp only [specStep, hacc, Bool.false_eq_true, if_false]
+    refine first_append _ _ (look_clauses c sp s (.result new es ee now) false s.ack sp.inDt .unchangedKeeps h.toA h.2.2.2.2.1
+      (Or.inl rfl) (hexp := hexp)) ?_
+    simp [first, obsOf, getAck_rest, h.2.2.2.1]
+  · have := rel_after_look c sp s now false s.ack sp.inDt sp.paused _ 0 h.2.1 h.2.2.1 h.2.2.2.2.1 h.2.2.2.2.2.2.2.2.2 hexp
+    simpa [specNext, lookObs] using this
+
+theorem filter_idem_or (l : List Cmt) (p : Cmt → Bool) (fired : Bool) :
+    ((if fired then l.filter p else l) = l ∨ (if fired then l.filter p else l) = l.filter p) := by
+  cases fired <;> simp
 
 theorem spec_step_pump (c : Cfg) (sp : SpecSt) (s : MSt) (now : Int) (fired : Bool) (h : Rel sp s) :
     specStep c sp (.pump now fired) (obsOf c (step c s (.pump now fired))) = none ∧
     Rel (specNext sp (.pump now fired) (obsOf c (step c s (.pump now fired)))) (step c s (.pump now fired)).1 := by
-  have h' : Rel { sp with comments := (pumped s now fired).comments } (pumped s now fired) := by
-    obtain ⟨h1, h2, h3, h4, h5⟩ := h
-    exact ⟨h1, h2, h3, rfl, h5⟩
-  have hrel := rel_getAck _ _ now h'
   rw [step_pump]
+  have hA : RelA sp (pumped s now fired) := h.toA
+  have hexp : expiryAfter sp (.pump now fired) (lookObs c (pumped s now fired) now true s.ack) =
+      if ackNow (pumped s now fired) now == .none then 0 else sp.expiry := by
+    simp [expiryAfter, lookObs, obsOf, getAck_ack]
   refine ⟨?_, ?_⟩
-  · exact look_clauses c { sp with comments := (pumped s now fired).comments } (pumped s now fired) now true h' .ackFrame
-  · simpa [specNext, obsOf, getAck_rest, pumped] using hrel
+  · refine first_append _ _ (look_clauses c sp (pumped s now fired) (.pump now fired) true s.ack sp.inDt .ackFrame hA
+      h.2.2.2.2.1 (Or.inl rfl) (hexp := hexp)) ?_
+    cases fired <;> simp [first, obsOf, getAck_rest, pumped, h.2.2.2.1]
+  · have := rel_after_look c sp (pumped s now fired) now true s.ack sp.inDt sp.paused _ 0 h.2.1 h.2.2.1 h.2.2.2.2.1
+      h.2.2.2.2.2.2.2.2.2 hexp
+    simpa [specNext, lookObs] using this
 
 theorem spec_step_downtime (c : Cfg) (sp : SpecSt) (s : MSt) (on : Bool) (now : Int) (h : Rel sp s) :
     specStep c sp (.downtime on now) (obsOf c (step c s (.downtime on now))) = none ∧
     Rel (specNext sp (.downtime on now) (obsOf c (step c s (.downtime on now)))) (step c s (.downtime on now)).1 := by
-  have h' : Rel { sp with inDt := on } { s with inDowntime := on } := by
-    obtain ⟨h1, h2, h3, h4, h5⟩ := h
-    exact ⟨h1, h2, h3, h4, rfl⟩
-  have hrel := rel_getAck _ _ now h'
   rw [step_downtime]
+  have hA : RelA sp { s with inDowntime := on } := h.toA
+  have hexp : expiryAfter sp (.downtime on now) (lookObs c { s with inDowntime := on } now true s.ack) =
+      if ackNow { s with inDowntime := on } now == .none then 0 else sp.expiry := by
+    simp [expiryAfter, lookObs, obsOf, getAck_ack]
   refine ⟨?_, ?_⟩
-  · exact look_clauses c { sp with inDt := on } { s with inDowntime := on } now true h' .ackFrame
-  · simpa [specNext, obsOf, getAck_rest] using hrel
+  · refine first_append _ _ (look_clauses c sp { s with inDowntime := on } (.downtime on now) true s.ack on .ackFrame hA
+      rfl (Or.inl rfl) (hexp := hexp)) ?_
+    simp [first, obsOf, getAck_rest, h.2.2.2.1]
+  · have := rel_after_look c sp { s with inDowntime := on } now true s.ack on sp.paused _ 0 h.2.1 h.2.2.1 rfl
+      h.2.2.2.2.2.2.2.2.2 hexp
+    simpa [specNext, lookObs] using this
+
+theorem spec_step_pause (c : Cfg) (sp : SpecSt) (s : MSt) (on : Bool) (now : Int) (h : Rel sp s) :
+    specStep c sp (.pause on now) (obsOf c (step c s (.pause on now))) = none ∧
+    Rel (specNext sp (.pause on now) (obsOf c (step c s (.pause on now)))) (step c s (.pause on now)).1 := by
+  rw [step_pause]
+  have hA : RelA sp { s with paused := on } := h.toA
+  have hexp : expiryAfter sp (.pause on now) (lookObs c { s with paused := on } now true s.ack) =
+      if ackNow { s with paused := on } now == .none then 0 else sp.expiry := by
+    simp [expiryAfter, lookObs, obsOf, getAck_ack]
+  refine ⟨?_, ?_⟩
+  · refine first_append _ _ (look_clauses c sp { s with paused := on } (.pause on now) true s.ack sp.inDt .ackFrame hA
+      h.2.2.2.2.1 (Or.inl rfl) (hexp := hexp)) ?_
+    simp [first, obsOf, getAck_rest, h.2.2.2.1]
+  · have := rel_after_look c sp { s with paused := on } now true s.ack sp.inDt on _ 0 h.2.1 h.2.2.1 h.2.2.2.2.1 rfl hexp
+    simpa [specNext, lookObs] using this
+
+theorem spec_step_remind (c : Cfg) (sp : SpecSt) (s : MSt) (now : Int) (h : Rel sp s) :
+    specStep c sp (.remind now) (obsOf c (step c s (.remind now))) = none ∧
+    Rel (specNext sp (.remind now) (obsOf c (step c s (.remind now)))) (step c s (.remind now)).1 := by
+  rw [step_remind]
+  let raw : Ack := if remindable c s then (getAck s now).1.ack else s.ack
+  let rem : Nat := if remindable c s && (getAck s now).1.ack == .none then 1 else 0
+  have hraw : raw = s.ack ∨ raw = ackNow s (Op.remind now).now := by
+    cases hr : remindable c s <;> simp [raw, hr, Op.now, getAck_ack]
+  have hrem : rem = 0 ∨ ackNow s (Op.remind now).now = .none := by
+    cases hr : remindable c s
+    · left; simp [rem, hr]
+    · by_cases hk : ackNow s now = .none
+      · right; simpa [Op.now] using hk
+      · left; simp [rem, hr, getAck_ack, hk]
+  have hexp : expiryAfter sp (.remind now) (lookObs c s now true raw rem) = if ackNow s now == .none then 0 else sp.expiry := by
+    simp [expiryAfter, lookObs, obsOf, getAck_ack]
+  refine ⟨?_, ?_⟩
+  · refine first_append _ _ (look_clauses c sp s (.remind now) true raw sp.inDt .ackFrame h.toA h.2.2.2.2.1 hraw rem hrem hexp) ?_
+    obtain ⟨h1, h2, h3, h4, h5, h6, h7, h8, h9, h10⟩ := h
+    simp [first, obsOf, getAck_rest, getAck_ack, h4, h1, h5, h6, h8, remindable]
+  · have := rel_after_look c sp s now true raw sp.inDt sp.paused _ rem h.2.1 h.2.2.1 h.2.2.2.2.1 h.2.2.2.2.2.2.2.2.2 hexp
+    simpa [specNext, lookObs, raw, rem] using this
 
 theorem spec_step_remove (c : Cfg) (sp : SpecSt) (s : MSt) (via : RVia) (now : Int) (h : Rel sp s) :
     specStep c sp (.remove via now) (obsOf c (step c s (.remove via now))) = none ∧
     Rel (specNext sp (.remove via now) (obsOf c (step c s (.remove via now)))) (step c s (.remove via now)).1 := by
-  obtain ⟨h1, h2, h3, h4, h5⟩ := h
+  obtain ⟨h1, h2, h3, h4, h5, h6, h7, h8, h9, h10⟩ := h
   rw [step_remove]
   refine ⟨?_, ?_⟩
-  · cases ha : s.ack <;> simp [specStep, obsOf, first, common, handledOf, h2, h5, ha, Ack.ind]
-  · simp [specNext, obsOf, Rel, h5]
+  · cases ha : s.ack <;> cases via <;>
+      simp [specStep, obsOf, first, common, quiet, handledOf, sevAckOf, h2, h4, h5, h8, h9, ha, Ack.ind]
+  · simp [specNext, obsOf, Rel, h5, h8, h9, h10, expiryAfter]
 
 theorem spec_step_ack (c : Cfg) (sp : SpecSt) (s : MSt) (via : Via) (sticky notify persistent : Bool) (expiry now : Int)
     (h : Rel sp s) :
@@ -250,32 +393,56 @@ theorem spec_step_ack (c : Cfg) (sp : SpecSt) (s : MSt) (via : Via) (sticky noti
       (step c s (.ack via sticky notify persistent expiry now)).1 := by
   have hr := ranOut_eq sp s now h
   have ha := ackAt_eq sp s now h
-  have hrel := rel_getAck sp s now h
-  have hd : sp.inDt = s.inDowntime := h.2.2.2.2
+  have hd : sp.inDt = s.inDowntime := h.2.2.2.2.1
   have hreq : requestedExpiry via expiry = storedExpiry via expiry := by
     cases via <;> simp [requestedExpiry, storedExpiry]
+  have hcme : commentExpire via expiry = storedExpiry via expiry := by
+    cases via <;> simp [commentExpire, storedExpiry]
   rw [step_ack]
   cases hc : (preRefuse c s via expiry now || ackNow s now != .none)
   · -- accepted
+    obtain ⟨h1, h2, h3, h4, h5, h6, h7, h8, h9, h10⟩ := h
     simp only [Bool.or_eq_false_iff] at hc
     obtain ⟨hp, hn⟩ := hc
     have hn' : ackNow s now = .none := by simpa using hn
     have hnotok : (via != .cluster && isOK c.kind sp.state) = false := by
-      rw [h.1]
+      rw [h1]
       cases via <;> simp_all [preRefuse, stateOK]
     by_cases hg : (¬ storedExpiry via expiry = 0 ∧ storedExpiry via expiry < now)
     · refine ⟨?_, ?_⟩
-      · cases sticky <;> cases notify <;>
-          simp [specStep, obsOf, first, common, Op.now, ha, hr, hn', hreq, hg, handledOf, hnotok, ackTypeOf, hd]
-      · simp [specNext, obsOf, Rel, hg, hd]
+      · cases sticky <;> cases notify <;> cases hpa : s.paused <;> cases via <;>
+          simp [specStep, obsOf, first, common, quiet, Op.now, ha, hr, hn', hreq, hcme, hg, handledOf, sevAckOf, hnotok,
+            ackTypeOf, hd, h4, h8, h9, h10, hpa, addsComment] <;> simp_all [storedExpiry]
+      · simp [specNext, obsOf, Rel, hg, hd, h6, h7, h8, h9, h10, expiryAfter]
     · refine ⟨?_, ?_⟩
-      · cases sticky <;> cases notify <;>
-          simp [specStep, obsOf, first, common, Op.now, ha, hr, hn', hreq, hg, handledOf, hnotok, ackTypeOf, hd]
-      · cases sticky <;> simp [specNext, obsOf, Rel, hg, hreq, ackTypeOf, hd]
+      · cases sticky <;> cases notify <;> cases hpa : s.paused <;> cases via <;>
+          simp [specStep, obsOf, first, common, quiet, Op.now, ha, hr, hn', hreq, hcme, hg, handledOf, sevAckOf, hnotok,
+            ackTypeOf, hd, h4, h8, h9, h10, hpa, addsComment, expiryAfter] <;> simp_all [storedExpiry]
+      · cases sticky <;> simp [specNext, obsOf, Rel, hg, hreq, ackTypeOf, hd, h6, h7, h8, h9, h10, expiryAfter]
   · -- refused
+    let raw : Ack := if preRefuse c s via expiry now then s.ack else ackNow s now
+    have hraw : raw = s.ack ∨ raw = ackNow s (Op.ack via sticky notify persistent expiry now).now := by
+      cases hp : preRefuse c s via expiry now <;> simp [raw, hp, Op.now]
+    have hexp : expiryAfter sp (.ack via sticky notify persistent expiry now) (lookObs c s now false raw) =
+        if ackNow s now == .none then 0 else sp.expiry := by
+      simp [expiryAfter, lookObs, obsOf, getAck_ack]
+    rw [if_pos rfl]
     refine ⟨?_, ?_⟩
-    · exact look_clauses c sp s now false h .ackFrame
-    · simpa [specNext, obsOf, getAck_rest] using hrel
+    · simp only [specStep]
+      rw [if_neg (by simp [obsOf])]
+      refine first_append _ _ (first_append [_] _ ?_ (look_clauses c sp s (.ack via sticky notify persistent expiry now) false raw
+        sp.inDt .ackFrame h.toA hd hraw (hexp := hexp))) ?_
+      · -- the refusal has a reason
+        simp only [Op.now]
+        rw [ha, h.1]
+        simp only [Bool.or_eq_true] at hc
+        rcases hc with hc | hc
+        · cases via <;> simp_all [first, preRefuse, stateOK] <;>
+            (intro h1 _; rcases hc with hc | hc <;> simp_all)
+        · simp [first, hc]
+      · simp [first, obsOf, getAck_rest, h.2.2.2.1]
+    · have := rel_after_look c sp s now false raw sp.inDt sp.paused _ 0 h.2.1 h.2.2.1 hd h.2.2.2.2.2.2.2.2.2 hexp
+      simpa [specNext, lookObs] using this
 
 theorem changed_eq (c : Cfg) (a b : SState) : changed c a b = stateChange c.kind a b := by
   simp [changed, stateChange_eq_proj]
@@ -284,30 +451,68 @@ theorem stepCore_state (c : Cfg) (b : St) (r : Res) :
     (stepCore c b r).1.state = r.state ∧ (stepCore c b r).1.lastExec = some r.execStart := by
   simp [stepCore]
 
+theorem notificationDue_eq (c : Cfg) (sp : SpecSt) (s : MSt) (new : SState) (h : Rel sp s) :
+    notificationDue c sp new = sendNotification c s.base new := by
+  obtain ⟨h1, _, _, _, _, h6, h7, _⟩ := h
+  simp [notificationDue, sendNotification, nextTypeAttempt, hardChangeOf, h1, h6, h7]
+
 theorem spec_step_result (c : Cfg) (sp : SpecSt) (s : MSt) (new : SState) (es ee now : Int) (h : Rel sp s)
     (hst : stale s.base ⟨new, es, now⟩ = false) :
     specStep c sp (.result new es ee now) (obsOf c (step c s (.result new es ee now))) = none ∧
     Rel (specNext sp (.result new es ee now) (obsOf c (step c s (.result new es ee now)))) (step c s (.result new es ee now)).1 := by
   have hr := ranOut_eq sp s now h
   have ha := ackAt_eq sp s now h
-  obtain ⟨h1, h2, h3, h4, h5⟩ := h
+  have hdue := notificationDue_eq c sp s new h
+  obtain ⟨h1, h2, h3, h4, h5, h6, h7, h8, h9, h10⟩ := h
   rw [step_result c s new es ee now hst]
   have hch : changed c sp.state new = stateChange c.kind s.base.state new := by rw [h1, changed_eq]
-  cases hs : s.ack
-  · -- no acknowledgement
-    have he : expired s now = false := not_expired_of_none s now hs
-    refine ⟨?_, ?_⟩
-    · cases hsc : stateChange c.kind s.base.state new <;> cases hok : isOK c.kind new <;>
-        simp [specStep, obsOf, first, common, Op.now, ha, hr, he, hch, hsc, hok, hs, h4, h5, ackNow, ackAfterResult,
-          clearsOnChange, handledOf, problemOf, stepCore_state]
-    · cases hsc : stateChange c.kind s.base.state new <;> cases hok : isOK c.kind new <;>
-        simp [specNext, obsOf, Rel, he, hsc, hok, hs, ackNow, ackAfterResult, clearsOnChange, stepCore_state, h4, h5]
-  all_goals
-    have h3' : sp.expiry = s.expiry := h3 (by simp [hs])
-    cases he : expired s now <;> cases hsc : stateChange c.kind s.base.state new <;> cases hok : isOK c.kind new <;>
-      cases hsend : sendNotification c s.base new <;> cases hp : s.suppPending <;> cases hdt : s.inDowntime <;>
-      simp [specStep, obsOf, first, common, Op.now, ha, hr, he, hch, hsc, hok, hs, h4, h5, ackNow, ackAfterResult,
-        clearsOnChange, handledOf, problemOf, stepCore_state, specNext, Rel, h3', hsend, hp, hdt]
+  refine ⟨?_, ?_⟩
+  · simp only [specStep]
+    rw [if_pos (by simp [obsOf])]
+    refine first_append _ _ (first_append _ _ ?_ ?_) ?_
+    · -- the clearing rules
+      cases hs : s.ack
+      · have he : expired s now = false := not_expired_of_none s now hs
+        cases hsc : stateChange c.kind s.base.state new <;> cases hok : isOK c.kind new <;>
+          simp [obsOf, first, Op.now, ha, hr, he, hch, hsc, hok, hs, ackNow, ackAfterResult, clearsOnChange, problemOf,
+            stepCore_state]
+      all_goals
+        cases he : expired s now <;> cases hsc : stateChange c.kind s.base.state new <;> cases hok : isOK c.kind new <;>
+          simp [obsOf, first, Op.now, ha, hr, he, hch, hsc, hok, hs, ackNow, ackAfterResult, clearsOnChange, problemOf,
+            stepCore_state]
+    · -- events, handled, severity, stored expiry
+      cases hs : s.ack
+      · have he : expired s now = false := not_expired_of_none s now hs
+        cases hsc : stateChange c.kind s.base.state new <;> cases hok : isOK c.kind new <;>
+          simp [obsOf, first, common, Op.now, ha, hr, he, hch, hsc, hok, hs, h5, ackNow, ackAfterResult, clearsOnChange,
+            handledOf, sevAckOf, problemOf, stepCore_state, expiryAfter]
+      all_goals
+        have h3' : sp.expiry = s.expiry := h3 (by simp [hs])
+        cases he : expired s now <;> cases hsc : stateChange c.kind s.base.state new <;> cases hok : isOK c.kind new <;>
+          simp [obsOf, first, common, Op.now, ha, hr, he, hch, hsc, hok, hs, h5, ackNow, ackAfterResult, clearsOnChange,
+            handledOf, sevAckOf, problemOf, stepCore_state, expiryAfter, h3']
+    · -- the state notification: requested, or withheld and stashed; the comments
+      simp only [obsOf, hdue, h1, h4, h5, h8, h9, h10]
+      generalize ackAfterResult c s new now = a1
+      generalize sendNotification c s.base new = sn
+      generalize isOK c.kind new = okn
+      generalize isOK c.kind s.base.state = oko
+      generalize s.paused = pa
+      generalize s.inDowntime = dt
+      generalize s.suppProblem = pP
+      generalize s.suppRecovery = pR
+      cases a1 <;> cases sn <;> cases okn <;> cases oko <;> cases pa <;> cases dt <;> cases pP <;> cases pR <;>
+        simp [first]
+  · cases hs : s.ack
+    · have he : expired s now = false := not_expired_of_none s now hs
+      cases hsc : stateChange c.kind s.base.state new <;> cases hok : isOK c.kind new <;>
+        simp [specNext, obsOf, Rel, he, hsc, hok, hs, ackNow, ackAfterResult, clearsOnChange, stepCore_state, h4, h5, h8, h9,
+          h10, expiryAfter, stepCore]
+    all_goals
+      have h3' : sp.expiry = s.expiry := h3 (by simp [hs])
+      cases he : expired s now <;> cases hsc : stateChange c.kind s.base.state new <;> cases hok : isOK c.kind new <;>
+        simp [specNext, obsOf, Rel, he, hsc, hok, hs, ackNow, ackAfterResult, clearsOnChange, stepCore_state, h4, h5, h8, h9,
+          h10, expiryAfter, stepCore, h3']
 
 
 /-- Every operation keeps the relation and satisfies the specification. -/
@@ -323,6 +528,8 @@ theorem spec_step (c : Cfg) (sp : SpecSt) (s : MSt) (op : Op) (h : Rel sp s) :
   | advance now => exact spec_step_advance c sp s now h
   | pump now fired => exact spec_step_pump c sp s now fired h
   | downtime on now => exact spec_step_downtime c sp s on now h
+  | pause on now => exact spec_step_pause c sp s on now h
+  | remind now => exact spec_step_remind c sp s now h
 
 theorem spec_trace_rel (c : Cfg) (ops : List Op) :
     ∀ (sp : SpecSt) (s : MSt), Rel sp s → specTrace c sp (trace c s ops) = none := by
@@ -375,6 +582,8 @@ theorem step_balance (c : Cfg) (s : MSt) (op : Op) :
   | advance now => rw [step_advance]; simpa using getAck_balance s now
   | pump now fired => rw [step_pump]; simpa [pumped] using getAck_balance (pumped s now fired) now
   | downtime on now => rw [step_downtime]; simpa using getAck_balance { s with inDowntime := on } now
+  | pause on now => rw [step_pause]; simpa using getAck_balance { s with paused := on } now
+  | remind now => rw [step_remind]; simpa using getAck_balance s now
 
 theorem totals_balance (c : Cfg) (ops : List Op) :
     ∀ s : MSt, s.ack.ind + (totals c s ops).1 = (totals c s ops).2 + (run c s ops).ack.ind := by
